@@ -11,6 +11,13 @@
 
 #include <urcu/urcu-poll.h>
 #include <urcu/call-rcu.h>
+#ifdef URCU_VERIF
+#include <urcu/verif.h>
+#else
+#ifndef urcu_verif_point
+#define urcu_verif_point(id, ctx) do { } while (0)
+#endif
+#endif
 
 struct urcu_poll_worker_state {
 	struct urcu_gp_poll_state current_state;
@@ -27,6 +34,7 @@ static struct urcu_poll_worker_state poll_worker_gp_state = {
 static
 void urcu_poll_worker_cb(struct rcu_head *head __attribute__((__unused__)))
 {
+	urcu_verif_point(URCU_VP_POLL_CB_ENTRY, &poll_worker_gp_state);
 	mutex_lock(&poll_worker_gp_state.lock);
 	/* A new grace period has been reached. */
 	poll_worker_gp_state.current_state.grace_period_id++;
@@ -63,6 +71,10 @@ struct urcu_gp_poll_state start_poll_synchronize_rcu(void)
 	else
 		new_target_gp_state.grace_period_id++;
 	poll_worker_gp_state.latest_target.grace_period_id = new_target_gp_state.grace_period_id;
+	if (was_active)
+		urcu_verif_point(URCU_VP_POLL_START_ACTIVE, &poll_worker_gp_state);
+	else
+		urcu_verif_point(URCU_VP_POLL_START_IDLE, &poll_worker_gp_state);
 	if (!was_active)
 		call_rcu(&poll_worker_gp_state.rcu_head, urcu_poll_worker_cb);
 	mutex_unlock(&poll_worker_gp_state.lock);
